@@ -7,7 +7,7 @@ From Coq Require Import List NArith Permutation.
 From Coq Require Import ZArith.
 From XotV Require Import Model.Base Model.Zipper Model.Access Model.Store Model.Manip Spec.DocOrder Spec.Shape
                          Proofs.ZipperProofs Proofs.AccessProofs Proofs.StoreProofs Proofs.InvProofs Proofs.InvSteps
-                         Proofs.InvOps Proofs.InvHist Proofs.InvApi Spec.NoAdj Proofs.NoAdjOps Proofs.UnwrapEffect Proofs.ReplaceEffect Proofs.NoAdjApi Proofs.BuilderSound Proofs.ParseCompose.
+                         Proofs.InvOps Proofs.InvHist Proofs.InvApi Spec.NoAdj Proofs.NoAdjOps Proofs.UnwrapEffect Proofs.ReplaceEffect Proofs.NoAdjApi Proofs.NoAdjFull Proofs.BuilderSound Proofs.ParseCompose.
 From XotV Require Import Model.Builder.
 From XotV Require Import Model.Unpretty Model.Interning Model.NsTools Model.Hist.
 Import ListNotations.
@@ -247,7 +247,49 @@ Theorem C04_no_adjacent_text_history_with_replace_partial :
 Proof. intros ops Hp. exact (noadj_history3 ops init_state Good_init eq_refl eq_refl Hp). Qed.
 Print Assumptions C04_no_adjacent_text_history_with_replace_partial.
 
-(* a replace between two text nodes by one of them is in the theorem, and merges them; by a third node it is not *)
+(* the one configuration the two theorems above leave out — the replaced node stands between two text nodes and the replacing
+   node is a third node — is Proofs/Seams.v and Proofs/ReplaceSeam.v: the call first detaches the replaced node without
+   consolidation, so the insertion of the replacing node runs in a store in which the two text nodes touch.  That store is
+   followed with the one pair tolerated ([nab S f]: the clause except for the pairs listed in S; cutting a node out adds the
+   pair of its neighbours, deleting a text node that starts no tolerated pair and inserting a non-text node add none), the
+   insertion is reduced to its four possible outcomes there (the replacing node separates the two text nodes; it is a text node
+   and goes into the first; it stood just before the first, which is merged away; it stood between two other text nodes, which
+   are merged where it leaves), and in each the tolerated pairs are gone at the end: split by the inserted node, or merged by
+   the last consolidation of the call.  So the clause is an invariant of every call but the switch-off, with no exception: *)
+Theorem C04_no_adjacent_text_step :
+  forall st o, Good st -> cons st = true -> noadj st -> keeps_cons o = true ->
+    noadj (fst (mstep st o)) /\ cons (fst (mstep st o)) = true.
+Proof. exact noadj_mstep_full. Qed.
+Print Assumptions C04_no_adjacent_text_step.
+
+(* along every history of the node-level API in which consolidation is not switched off, from the empty store *)
+Theorem C04_no_adjacent_text_history :
+  forall ops, forallb keeps_cons ops = true -> noadj (mfinal init_state ops) /\ cons (mfinal init_state ops) = true.
+Proof. intros ops Hp. exact (noadj_history_full ops init_state Good_init eq_refl eq_refl Hp). Qed.
+Print Assumptions C04_no_adjacent_text_history.
+
+(* and over the calls built on the node-level API as well *)
+Theorem C04_no_adjacent_text_api_history :
+  forall nm ops t st, Good st -> cons st = true -> noadj st -> forallb top_keeps_cons ops = true ->
+    noadj (snd (tfinal nm (t, st) ops)) /\ cons (snd (tfinal nm (t, st) ops)) = true.
+Proof. exact noadj_tfinal_full. Qed.
+Print Assumptions C04_no_adjacent_text_api_history.
+
+(* what [keeps_cons] leaves out: the call that switches consolidation off, which the property itself excludes *)
+Example C04_only_the_switch_off_is_excluded : forall o, keeps_cons o = false -> o = OCons false.
+Proof. intros o H. destruct o; try discriminate H. destruct b; [discriminate|reflexivity]. Qed.
+
+(* replace between two text nodes by a third node: an element separates them, a text node is merged with both *)
+Example C04_noadj_replace_by_third_node_example :
+  let ops := [ONewDoc; ONewEl 5; OAppend 0 1; ONewText [104]; OAppend 1 2; ONewEl 6; OAppend 1 3; ONewText [105]; OAppend 1 4] in
+  run_ok init_state (ops ++ [ONewEl 7; OReplace 3 5]) = false
+  /\ store (mfinal init_state (ops ++ [ONewEl 7; OReplace 3 5]))
+     = FCons 0 VDocument (FCons 1 (VElement 5) (FCons 2 (VText [104]) FNil (FCons 5 (VElement 7) FNil (FCons 4 (VText [105]) FNil FNil))) FNil) FNil
+  /\ store (mfinal init_state (ops ++ [ONewText [106]; OReplace 3 5]))
+     = FCons 0 VDocument (FCons 1 (VElement 5) (FCons 2 (VText [104; 106; 105]) FNil FNil) FNil) FNil.
+Proof. vm_compute. repeat split. Qed.
+
+(* a replace between two text nodes by one of them is in the second theorem, and merges them; by a third node it is not *)
 Example C04_noadj_replace_example :
   let ops := [ONewDoc; ONewEl 5; OAppend 0 1; ONewText [104]; OAppend 1 2; ONewEl 6; OAppend 1 3; ONewText [105]; OAppend 1 4] in
   run_ok init_state (ops ++ [OReplace 3 2]) = true
